@@ -93,7 +93,7 @@ def corpus():
 
 
 def run(ctx: Ctx):
-    n = 10000 if ctx.thorough() else 700
+    n = 5000 if ctx.thorough() else 700
     evaluate(ctx, corpus() + [gen_pair(ctx.rng, ctx.thorough(), maxn=3000) for _ in range(n)])
     seeds = range(ctx.seed * 100000, ctx.seed * 100000 + (400 if ctx.thorough() else 12))
     for nn in ((4000, 16000) if ctx.thorough() else (4000,)):
